@@ -203,4 +203,28 @@ Section CancelProgram.
     - inversion H; subst. split; assumption.
   Qed.
 
+  (* ExecuteContext with a cancellable context, cancelled from outside at [d] (None: not at all) *)
+  Corollary execute_context_prompt fuel cp m0 d x fin cs' :
+    (forall t, d = Some t -> 0 <= t) ->
+    execute_all fuel cp m0 (cs_execute_context true d) = (x, fin, cs') ->
+    (forall t, done_at cs' = Some t -> clock cs' <= t + checkContextOps - 1) /\
+    (x = RCtx -> closed cs' = true) /\
+    (closed cs' = true -> match x with RErr _ | RSentinel _ => False | _ => True end).
+  Proof.
+    intros Hd H. destruct (execute_all_inv _ _ _ _ _ _ _ (Inv_init d Hd) H) as ((Hp & Hc & Hpref) & _).
+    repeat split; assumption.
+  Qed.
+
+  Corollary execute_context_pre_cancelled fuel cp m0 x fin cs' :
+    execute_all fuel cp m0 (cs_execute_context true (Some 0)) = (x, fin, cs') ->
+    clock cs' <= checkContextOps - 1 /\ match x with RErr _ | RSentinel _ => False | _ => True end.
+  Proof.
+    intros H.
+    assert (Hd : forall t, Some 0 = Some t -> 0 <= t) by (intros t E; inversion E; lia).
+    destruct (execute_all_inv _ _ _ _ _ _ _ (Inv_init (Some 0) Hd) H) as ((Hp & Hc & Hpref) & (Hclk & Hdone & _)).
+    assert (E : done_at cs' = Some 0) by (apply Hdone; reflexivity).
+    specialize (Hp 0 E). split; [lia|].
+    apply Hpref. unfold closed. rewrite E. apply Z.leb_le. cbn in Hclk. exact Hclk.
+  Qed.
+
 End CancelProgram.
